@@ -30,8 +30,8 @@ class ChildEvent:
     ctx: object = None
     def havoc(self, mem):
         c = self.ctx
-        a = z3.BitVec('a!hv', c.BITS)
-        prot = z3.And(z3.ULE(self.lo, a), z3.ULT(a, c.stack_end))
+        a = z3.Int('a!hv')
+        prot = z3.And(self.lo <= a, a < c.stack_end)
         return z3.Lambda([a], z3.If(prot, z3.Select(mem, a), z3.Select(self.fresh_mem, a)))
 
 
@@ -39,17 +39,18 @@ class LemmaCtx(Ctx):
     def all_pre(self):
         code = [v for n, v in self._lbl.items() if not n.startswith(('var_', 'data_', 'arg_', 'string_'))]
         d = [z3.Distinct(*code)] if len(code) > 1 else []
-        return self.pre + d
+        return self.pre + self.facts + d + list(self.lemma.session.assumptions)
 
 
 class Lemma:
     def __init__(self, name, w=2, unchecked=False, may_defeat=False, virtual_defeat=False, interpret=(), src=None,
-                 n_prior_arrays=0):
+                 n_prior_arrays=0, decisions=()):
         self.name = name; self.w = w; self.unchecked = unchecked
         self.may_defeat = may_defeat; self.virtual_defeat = virtual_defeat
-        self.session = Session(); self.session.__enter__()
+        self.session = Session(decisions); self.session.__enter__()
         S = self.session
         self.bits = 8 * w
+        self.M = 1 << self.bits
         self.cg = make_codegen(w, unchecked, **({'src': src} if src else {}))
         cg = self.cg
         self.ctx = LemmaCtx(w, interpret=interpret, halting_cont=True)
@@ -57,12 +58,11 @@ class Lemma:
         c.lemma = self
         c.children = cg.v_children
         c.child_sem = self.child_sem
-        c.stack_end = z3.BitVec('stack_end', self.bits)
+        c.stack_end = z3.Int('stack_end')
         # --- symbolic compile-time frame
         self.OMAX = 1 << (self.bits - 3)
         self.O = S.symbol('O', lo=w, hi=self.OMAX)            # frame offset at entry (at least the RA slot)
         self.Sz = S.symbol('S', lo=0, hi=self.OMAX)           # static array bytes at entry
-        self.symmap = {'O': z3.BitVec('O', self.bits), 'S': z3.BitVec('S', self.bits)}
         cg.stack = StackPoint(offset=self.O, array_num=n_prior_arrays, static_array_size=self.Sz if n_prior_arrays else 0)
         self.entry_stack = cg.stack
         cg.checkpoints = Tracker()
@@ -70,22 +70,21 @@ class Lemma:
         if virtual_defeat:
             cg.effective_defeat = asm.State(cg.defeat); cg.func_defeat = cg.effective_defeat
         # --- symbolic entry state
-        regs = {r: z3.BitVec(r + '0', self.bits) for r in ('r0', 'r1', 'r2', 'ap', 'fp', 'try_fp', 'defeat')}
-        self.entry = State(regs, z3.Array('mem0', z3.BitVecSort(self.bits), z3.BitVecSort(8)))
-        bv = c.bv
-        Obv = self.symmap['O']; Sbv = self.symmap['S']
-        self.entry_offset_bv = Obv
+        regs = {}
+        for r in ('r0', 'r1', 'r2', 'ap', 'fp', 'try_fp', 'defeat'):
+            regs[r] = z3.Int(r + '0')
+            c.pre += [regs[r] >= 0, regs[r] < self.M]
+        self.entry = State(regs, z3.Array('mem0', z3.IntSort(), z3.IntSort()))
+        self.entry_offset = self.O.z3()
         fp, ap = regs['fp'], regs['ap']
-        c.pre += [z3.ULE(bv(w), Obv), z3.ULE(Obv, bv(self.OMAX)), z3.ULE(Sbv, bv(self.OMAX)),
-                  z3.ULE(bv(5 * w), ap), z3.ULE(ap, fp), z3.ULE(Obv, fp - ap),      # I-regs
-                  z3.ULE(fp, c.stack_end), z3.ULT(c.stack_end, bv(1 << (self.bits - 1)))]
+        c.pre += [5 * w <= ap, ap + self.O.z3() <= fp,                  # I-regs: stack_start <= ap <= fp - offset
+                  fp <= c.stack_end, c.stack_end < self.M // 2]
         if not virtual_defeat:
             c.pre.append(regs['defeat'] == c.label('halt'))
-        self.vars = {}          # name -> ('local', offset SymInt, size) | ('global', label, size) | ('imm', value)
+        self.vars = {}          # name -> ('local', offset SymInt, size, type) | ('global', label term, size, type)
         self.results = []
         self._nsym = 0
         self.functions = set()
-        self.strings = {}
 
     def close(self):
         self.session.__exit__(None, None, None)
@@ -93,20 +92,17 @@ class Lemma:
     # ---- abstract operands -----------------------------------------------------------------------------------------
     def sym(self, prefix, lo=None, hi=None):
         self._nsym += 1
-        name = f'{prefix}{self._nsym}'
-        self.symmap[name] = z3.BitVec(name, self.bits)
-        s = self.session.symbol(name, lo, hi)
-        if lo is not None and hi is not None and 0 <= lo and hi < (1 << self.bits):
-            self.ctx.pre += [z3.ULE(self.ctx.bv(lo), self.symmap[name]), z3.ULE(self.symmap[name], self.ctx.bv(hi))]
-        return s
+        return self.session.symbol(f'{prefix}{self._nsym}', lo, hi)
 
-    def bvof(self, x):
-        if isinstance(x, SymInt):
-            return x.bv(self.bits, self.symmap)
-        return self.ctx.bv(int(x) % (1 << self.bits))
+    def term(self, x):
+        """compile-time integer (int or SymInt) as an integer term (unreduced)"""
+        return x.z3() if isinstance(x, SymInt) else z3.IntVal(int(x))
+
+    def word(self, x):
+        return self.ctx.wrap(self.term(x))
 
     def const_value(self, data):
-        return self.bvof(data)
+        return self.word(data)
 
     def string_value(self, data):
         lbl = self.cg.string_labels[data]
@@ -123,22 +119,21 @@ class Lemma:
             raise ValueError('bool literals are concrete')
         if t == DataType.BYTE:
             return ast.ByteValue(self.sym('K' + name, 0, 255), None)
-        return ast.IntValue(self.sym('K' + name), None)
+        return ast.IntValue(self.sym('K' + name), None)      # any Python integer: the assembler wraps the decimal
 
     def local(self, name, t=DataType.INT, const=False):
         size = self.size_of(t)
-        # slot somewhere in the entry frame below the RA word: offset X with size <= ... <= O
+        # slot somewhere in the entry frame below the RA word
         X = self.sym('X' + name)
-        self.session.assume(X.z3() >= size + (self.w if True else 0))
+        self.session.assume(X.z3() >= size + self.w)
         self.session.assume(X.z3() <= self.O.z3())
-        Xbv = self.bvof(X)
-        self.ctx.pre += [z3.ULE(self.ctx.bv(size + self.w), Xbv), z3.ULE(Xbv, self.symmap['O'])]
         acc = (asm.IndirectByte if size == 1 else asm.Indirect)(asm.Section.STATE, asm.State(self.cg.fp), asm.IntLiteral(-X))
         self.cg.local_vars[name] = acc
         var = ast.Variable(name, t, const)
         self.vars[name] = ('local', X, size, t)
         if t == DataType.BOOL:      # I-bool for the slot
-            self.ctx.pre.append(z3.ULE(z3.Select(self.entry.mem, self.entry.regs['fp'] - Xbv), z3.BitVecVal(1, 8)))
+            cell = z3.Select(self.entry.mem, self.entry.regs['fp'] - X.z3())
+            self.ctx.pre += [cell >= 0, cell <= 1]
         return ast.VariableLookup(var, None)
 
     def glob(self, name, t=DataType.INT):
@@ -148,36 +143,34 @@ class Lemma:
         acc = asm.StateByte(label) if size == 1 else asm.State(label)
         self.cg.global_vars[name] = acc
         L = self.ctx.label(label.label_name)
-        self.ctx.extents.append((L, L + self.ctx.bv(size)))
-        self.ctx.pre += [z3.ULE(self.ctx.stack_end, L), z3.ULT(L, self.ctx.bv((1 << (self.bits - 1)) - 16))]
+        self.ctx.extents.append((L, L + size))
+        self.ctx.pre += [self.ctx.stack_end <= L, L + size < self.M // 2]
         var = ast.Variable(name, t, False)
         self.vars[name] = ('global', L, size, t)
         if t == DataType.BOOL:
-            self.ctx.pre.append(z3.ULE(z3.Select(self.entry.mem, L), z3.BitVecVal(1, 8)))
+            cell = z3.Select(self.entry.mem, L)
+            self.ctx.pre += [cell >= 0, cell <= 1]
         return ast.VariableLookup(var, None)
 
-    def read_var(self, S, var):
+    def var_address(self, var):
         kind, where, size, t = self.vars[var.name]
         if kind == 'local':
-            return S.load(S.mem, self.entry.regs['fp'] - self.bvof(where), size)
-        if kind == 'global':
-            return S.load(S.mem, where, size)
-        raise KeyError(var.name)
+            return self.entry.regs['fp'] - where.z3(), size
+        return where, size
 
-    def operand_shapes(self, name, t=DataType.INT, shapes=('opaque', 'literal', 'local', 'global')):
-        for s in shapes:
-            yield s, getattr(self, s)(name, t)
+    def read_var(self, S, var):
+        a, size = self.var_address(var)
+        return S.load(S.mem, a, size)
 
     # ---- child contract (DESIGN Appendix B) -----------------------------------------------------------------------------
     def child_sem(self, engine, info, st, cond):
-        c = self.ctx; bv = c.bv
+        c = self.ctx
         node = info.node
-        o_now = self.bvof(info.stack.offset)
+        o_now = self.term(info.stack.offset)
         fp, ap = st.regs['fp'], st.regs['ap']
         # child preconditions: Inv at the compile-time stack the generator has at this moment
         engine.safety.append((list(cond), f'child {node!r} precondition: fp is the activation frame pointer', fp == self.entry.regs['fp']))
-        engine.safety.append((list(cond), f'child {node!r} precondition: ap <= fp - offset (frame above array stack)',
-                              z3.And(z3.ULE(o_now, fp - ap), z3.ULE(ap, fp))))
+        engine.safety.append((list(cond), f'child {node!r} precondition: ap <= fp - offset (frame above array stack)', ap + o_now <= fp))
         pre = st.copy()
         st2 = st.copy()
         lo = fp - o_now
@@ -187,19 +180,14 @@ class Lemma:
             st2.regs[r] = c.fresh('hv_' + r)
         if info.kind == 'expr':
             v = c.fresh('v_' + node.name)
-            if node.type == DataType.BOOL: extra.append(z3.ULE(v, bv(1)))
-            elif node.type == DataType.BYTE and node.shape == 'REG': extra.append(z3.ULE(v, bv(255)))
-            if node.shape == 'REG':
-                st2.regs[info.r_out] = v
-            else:   # REGBYTE: the value is the low byte of the register
-                full = c.fresh('vw_' + node.name)
-                st2.regs[info.r_out] = full
-                v = z3.ZeroExt(self.bits - 8, z3.Extract(7, 0, full))
+            if node.type == DataType.BOOL: extra.append(v <= 1)
+            elif node.type == DataType.BYTE: extra.append(v <= 255)
+            st2.regs[info.r_out] = v
         ev = ChildEvent(info, v, pre, fresh_mem, lo, None, c)
         st2.mem = ev.havoc(st.mem)
         st2.trace = st.trace + (('child', info, ev),)
         leaves = [(extra, 'normal', None, st2)]
-        # abnormal outcomes
+
         def abnormal(kind):
             e2 = ChildEvent(info, None, pre, fresh_mem, lo, kind, c)
             s3 = st2.copy(); s3.trace = st.trace + (('child', info, e2),)
@@ -223,30 +211,33 @@ class Lemma:
     def finalize_headroom(self):
         """pop the harness checkpoint: the real Tracker now knows the maximum static size the method reached"""
         self.cg.checkpoints.pop_level()
-        M = self.headroom._data
+        Mx = self.headroom._data
         c = self.ctx
         # I-headroom: fp - ap >= M - S   (checked builds establish it by the guards; unchecked builds assume it)
-        need = self.bvof(M - (self.entry_stack.static_array_size))
-        c.pre.append(z3.ULE(need, self.entry.regs['fp'] - self.entry.regs['ap']))
-        return M
+        c.pre.append(self.entry.regs['ap'] + self.term(Mx - self.entry_stack.static_array_size) <= self.entry.regs['fp'])
+        return Mx
 
-    def run_engine(self, lines):
-        c = self.ctx
-        c.syms = {i: self.bvof(x) for i, x in enumerate(self.session.registry)}
-        eng = Engine(sem.fragment(lines), c)
-        leaves = eng.run(0, self.entry.copy(), [])
-        # placeholders may have been registered while rendering only; refresh
+    def pending_forks(self):
+        """decision prefixes still to explore after this run"""
+        d = self.session.decisions
+        return [tuple(d[:i]) + (not d[i],) for i in self.session.forked]
+
+    def refresh_syms(self):
+        self.ctx.syms = {i: self.term(x) for i, x in enumerate(self.session.registry)}
+
+    def run_engine(self, lines, entry=None, cond=()):
+        self.refresh_syms()
+        eng = Engine(sem.fragment(lines), self.ctx)
+        leaves = eng.run(0, (entry or self.entry).copy(), list(cond))
         return eng, leaves
 
     def read_accessor(self, acc, leaf, scratch='r2'):
         """value an accessor denotes in the leaf's state, obtained by running the accessor's own real `.get()` code"""
-        c = self.ctx
         ins, res = drive(acc.get(asm.LabelRef(scratch)))
         lines = render(ins)
-        c.syms = {i: self.bvof(x) for i, x in enumerate(self.session.registry)}
         text = bytes(res)
-        c.syms = {i: self.bvof(x) for i, x in enumerate(self.session.registry)}
-        eng = Engine(sem.fragment(lines), c)
+        self.refresh_syms()
+        eng = Engine(sem.fragment(lines), self.ctx)
         ls = eng.run(0, leaf.st.copy(), list(leaf.cond))
         assert len(ls) == 1 and ls[0].kind == 'exit'
         return eng.val(ls[0].st, ls[0].cond, reader.parse_operand(text)), eng.safety
@@ -255,6 +246,8 @@ class Lemma:
     def add(self, clause, status, t0, props, detail=None, backend='sphinxsem+z3'):
         d = dict(detail or {})
         d.setdefault('functions', sorted(self.functions))
+        if status == FAILED and hasattr(self, 'lines'):
+            d.setdefault('emitted', [l.decode('latin1') for l in self.lines][:80])
         self.results.append(Result(f'{self.name}/{clause}', status, backend, time.time() - t0, tuple(props), d))
 
     def prove_all(self, clause, items, props, t0=None):
@@ -262,6 +255,13 @@ class Lemma:
         t0 = t0 or time.time()
         c = self.ctx
         bad = None; n = 0
+        if len(items) > 1:
+            # one query for the conjunction; on failure fall through to the itemised loop to name the culprit
+            goal = z3.And(*[z3.Implies(z3.And(*cond) if cond else z3.BoolVal(True), f) for cond, _, f in items])
+            o = smt.prove(c.all_pre(), goal)
+            if o.verdict == smt.PROVED:
+                self.add(clause, DISCHARGED, t0, props, {'formula': f'{len(items)} conditions, e.g. {items[0][1]}', 'count': len(items)})
+                return True
         for cond, text, f in items:
             n += 1
             o = smt.prove(c.all_pre() + list(cond), f)
@@ -327,7 +327,6 @@ class Lemma:
             if not (k == 'term' and leaf.tgt == out.what):
                 raise SP.Mismatch(f'source semantics faults with {out.what}, emitted code does {k} {leaf.tgt}')
         elif out.kind == 'child-abnormal':
-            want = {'term': 'term', 'defeat': None}[out.what]
             if out.what == 'term' and not (k == 'term' and leaf.tgt == 'child'):
                 raise SP.Mismatch(f'child entered a terminal state, emitted code continued: {k} {leaf.tgt}')
             if out.what == 'defeat' and k not in ('bot', 'ijump'):
@@ -335,22 +334,24 @@ class Lemma:
         elif out.kind == 'defeat':
             if k not in ('bot', 'ijump'):
                 raise SP.Mismatch(f'source semantics reaches defeat, emitted code does {k} {leaf.tgt}')
+        elif out.kind in ('return', 'break', 'continue', 'exit'):
+            compare(S, leaf, out)
         else:
             raise SP.Mismatch(f'unexpected outcome {out.kind}')
         if S.pos != len(S.trace):
             e = S.trace[S.pos]
             raise SP.Mismatch(f'emitted code performs an extra {e[0]} {e[1] if e[0] != "child" else e[1].node!r} the source semantics does not')
 
-    def inv_at_exit(self, leaves, props, clause='INV', ap_delta=None, defeat_same=True):
+    def inv_at_exit(self, leaves, props, clause='INV', ap_delta=None, defeat_same=True, kinds=('exit',)):
         """machine invariant at normal exits: fp, try_fp, defeat unchanged, ap = entry ap (+ delta)"""
         t0 = time.time()
         items = []
         E = self.entry.regs
         for l in leaves:
-            if l.kind == 'exit' and l.tag is None:
+            if l.kind in kinds and l.tag is None:
                 r = l.st.regs
                 items.append((l.cond, 'fp unchanged at exit', r['fp'] == E['fp']))
-                items.append((l.cond, 'ap as at entry (plus what the construct allocates)', r['ap'] == E['ap'] + (ap_delta if ap_delta is not None else self.ctx.bv(0))))
+                items.append((l.cond, 'ap as at entry (plus what the construct allocates)', r['ap'] == E['ap'] + (ap_delta if ap_delta is not None else 0)))
                 items.append((l.cond, 'try_fp unchanged at exit', r['try_fp'] == E['try_fp']))
                 if defeat_same:
                     items.append((l.cond, 'defeat unchanged at exit', r['defeat'] == E['defeat']))
@@ -366,9 +367,10 @@ class Lemma:
             return True
         if bad:
             o = bad[0]
-            s = z3.Solver(); s.add(*self.ctx.all_pre()); s.add(*o.cond); s.check()
+            s = z3.Solver(); s.add(*self.ctx.all_pre()); s.add(*o.cond)
+            mdl = s.model() if s.check() == z3.sat else None
             self.add(clause, FAILED, t0, props, {'message': 'a halt is reachable on the committed timeline (no Turing jump averts it)',
-                                                  'model': smt.model_to_json(s.model() if s.check() == z3.sat else None)})
+                                                  'model': smt.model_to_json(mdl)})
             return False
         self.add(clause, DISCHARGED, t0, props, {'formula': f'none of the {len(leaves)} leaves is a committed halt'})
         return True
@@ -379,8 +381,70 @@ class Lemma:
         have = {(l.kind, l.tgt if isinstance(l.tgt, str) else None) for l in leaves if l.tag is None}
         missing = [w for w in wanted if w not in have]
         if missing:
-            self.add(clause, FAILED, t0, props, {'message': f'expected leaf kinds not reachable: {missing}; have {sorted(map(str, have))}',
-                                                  'replay': {'reproduced': None}})
+            self.add(clause, FAILED, t0, props, {'message': f'expected leaf kinds not reachable: {missing}; have {sorted(map(str, have))}'})
             return False
         self.add(clause, DISCHARGED, t0, props, {'formula': f'reachable: {sorted(map(str, wanted))}'}, backend='sphinxsem+z3')
         return True
+
+    # ---- the standard flow for a scalar expression lemma ------------------------------------------------------------------
+    def guarded_emit(self, make_gen, props=('C10',)):
+        """run the real method; an exception other than CompilerError on a well-typed abstract input fails NOERR"""
+        t0 = time.time()
+        from hidc.errors import CompilerError
+        try:
+            out = self.emit(make_gen())
+        except CompilerError:
+            raise
+        except Exception as e:  # AssertionError, InternalCompilerError, TypeError ...
+            self.add('NOERR', FAILED, t0, props, {'message': f'real generator method raised {type(e).__name__}: {e}',
+                                                   'traceback': ''.join(traceback.format_exception(e))[-2500:],
+                                                   'replay': {'reproduced': True, 'how': 'the exception was raised by the real method run by CPython'}},
+                     backend='harness')
+            return None
+        self.add('NOERR', DISCHARGED, t0, props, {'formula': 'the real method completes without internal exception on this abstract input'},
+                 backend='harness')
+        return out
+
+    def nonvolatile(self, acc, bubble):
+        """keep=True promise: the accessor survives evaluation of later expressions (DESIGN Appendix B)"""
+        if isinstance(acc, asm.Immediate):
+            return True
+        if isinstance(acc, (asm.Indirect, asm.IndirectByte)) and acc.base == asm.State(self.cg.fp) and isinstance(acc.offset, asm.IntLiteral):
+            off = -acc.offset.data
+            return bool(off <= bubble.cur.offset) and bool(off >= 1)
+        return False
+
+    def check_scalar_expr(self, e, r_out, keep, P, want_cover=(('exit', '<end>'),)):
+        """P: dict clause -> props"""
+        cg = self.cg
+        out = self.guarded_emit(lambda: cg.eval_expr(asm.LabelRef(r_out), e, keep), P.get('NOERR', ('C10',)))
+        if out is None:
+            return self.results
+        instrs, lines, bubble = out
+        self.lines = lines
+        t0 = time.time()
+        book = []
+        if not (bubble.prev == self.entry_stack): book.append('bubble.prev is not the entry stack')
+        if not (cg.stack == bubble.cur): book.append('self.stack is not bubble.cur after the call')
+        if keep and not self.nonvolatile(bubble.value, bubble): book.append(f'keep=True but the result accessor {bubble.value} is volatile')
+        if bubble.cur.array_num != self.entry_stack.array_num: book.append('scalar expression changed array_num')
+        self.add('BOOK', FAILED if book else DISCHARGED, t0, P['SIM'], {'message': '; '.join(book), 'formula': 'bubble bookkeeping of eval_expr',
+                 'replay': {'reproduced': True, 'how': 'observed on the value returned by the real method'}}, backend='harness')
+        self.finalize_headroom()
+        eng, leaves = self.run_engine(lines)
+        extra_safety = []
+
+        def compare(S, leaf, o):
+            v, saf = self.read_accessor(bubble.value, leaf)
+            extra_safety.extend(saf)
+            S.require_eq(v, o.value, 'result value')
+            S.sync(leaf.st, 'at exit')
+        self.simulate(leaves, lambda S: S.eval(e), compare, P['SIM'])
+        self.inv_at_exit(leaves, P['INV'])
+        self.nobot(leaves, P['NOBOT'])
+        if not self.unchecked:
+            self.prove_all('SAFE', eng.safety + extra_safety, P['SAFE'])
+        else:
+            self.prove_all('CHILDPRE', [s for s in eng.safety if 'precondition' in s[1]], P['SIM'])
+        self.cover(leaves, list(want_cover), P['SIM'])
+        return self.results
